@@ -228,7 +228,7 @@ def r4_predicate(ctx):
 # ---------------------------------------------------------------------------------------------- evaluation (R0)
 
 UNIVERSE = ["fr", "fr-FR", "fr-CA", "fr-Latn-FR", "en", "en-US", "ca-ES", "ca-ES-valencia"]
-EXTRA_REQUESTS = ["de", "fr-Latn", "en-GB"]
+EXTRA_REQUESTS = ["de", "fr-Latn", "en-GB", "und", "und-FR"]       # `und`: no language given - it names no supported locale
 
 
 def _parse_tag(tag):
@@ -249,6 +249,8 @@ def _lid(tag):
     from rules.absint import C, CF, L
     lang, script, region, variants = _parse_tag(tag)
     S = lambda x: ("str", x)  # noqa: E731
+    if lang == "und":
+        lang = ""          # icu's Language::UND is the empty language (`is_empty()`)
     return CF("LanguageIdentifier", language=S(lang), script=C("Some", S(script)) if script else C("None"),
               region=C("Some", S(region)) if region else C("None"), variants=L(*[S(v) for v in variants]))
 
